@@ -86,6 +86,27 @@ Definition parse (data : list N) : presult :=
   | _ => Nullopt
   end.
 
+(* WebSocketFrame::checkHeader (added with the repair of C18-F1b): what the first bytes say before the payload is
+   there.  maxp applies to non-control frames only; control frames are bounded by 125 anyway. *)
+Inductive hstat := HIncomplete | HOk | HProto | HTooBig.
+Definition check_header (data : list N) (maxp : N) : hstat :=
+  match data with
+  | b0 :: b1 :: rest =>
+    let fin := N.testbit b0 7 in
+    let rsv := N.land (N.shiftr b0 4) 7 in
+    let op := N.land b0 15 in
+    if negb (rsv =? 0) then HOk
+    else
+      let l7 := N.land b1 127 in
+      if is_control op then (if (125 <? l7) || negb fin then HProto else HOk)
+      else
+        match ext_len l7 rest with
+        | None => HIncomplete
+        | Some (plen, _, _) => if maxp <? plen then HTooBig else HOk
+        end
+  | _ => HIncomplete
+  end.
+
 Definition ser_len (mask : bool) (n : N) : list N :=
   let m := if mask then 128 else 0 in
   if n <=? 125 then [m + n]
@@ -168,20 +189,43 @@ Record wstate := mkW {
   w_frag : list N;               (* fragmentBuffer *)
   w_fragop : N;                  (* fragmentOpcode *)
   w_close_sent : bool;           (* server closeSent / client _closeEchoed *)
-  w_connected : bool             (* client: _state == CONNECTED *)
+  w_connected : bool;            (* client: _state == CONNECTED *)
+  w_csent : bool                 (* client: _closeSent (a CLOSE frame has been handed to the transport) *)
 }.
-Definition w_init : wstate := mkW true [] 0 false true.
+(* w_alive: server = the session is present in _sessions; client = not _inputFailed *)
+Definition w_init : wstate := mkW true [] 0 false true false.
 
 (* reason strings used by the server's own close frames *)
 Definition reason_too_big : list N := [77; 101; 115; 115; 97; 103; 101; 32; 84; 111; 111; 32; 66; 105; 103].   (* "Message Too Big" *)
 Definition reason_utf8 : list N := [73; 110; 118; 97; 108; 105; 100; 32; 85; 84; 70; 45; 56].      (* "Invalid UTF-8" *)
+Definition reason_proto : list N := [80; 114; 111; 116; 111; 99; 111; 108; 32; 101; 114; 114; 111; 114].   (* "Protocol error" *)
 Definition reason_opcode : list N := [85; 110; 115; 117; 112; 112; 111; 114; 116; 101; 100; 32; 111; 112; 99; 111; 100; 101].    (* "Unsupported opcode" *)
 
 (* server sendClose(code, reason): sets closeSent (if present) and always sends *)
 Definition srv_send_close (s : wstate) (code : N) (reason : list N) : wstate * list wevent :=
   (mkW (w_alive s) (w_frag s) (w_fragop s)
-       (if w_alive s then true else w_close_sent s) (w_connected s),
+       (if w_alive s then true else w_close_sent s) (w_connected s) (w_csent s),
    [EvSend (make_close code reason)]).
+
+(* client sendClose(code, reason): records _closeSent and always sends *)
+Definition cl_send_close (s : wstate) (code : N) (reason : list N) : wstate * list wevent :=
+  (mkW (w_alive s) (w_frag s) (w_fragop s) (w_close_sent s) (w_connected s) true,
+   [EvSend (make_close code reason)]).
+
+(* failConnection (RFC 6455 7.1.7), both roles: one Close frame unless one was sent already, report, stop reading.
+   Server: the session is forgotten and the transport session closed.  Client: _inputFailed, buffers dropped, CLOSED. *)
+Definition fail_conn (r : role) (s : wstate) (code : N) (reason : list N) : wstate * list wevent :=
+  match r with
+  | Server =>
+    if w_alive s then
+      (mkW false (w_frag s) (w_fragop s) true (w_connected s) (w_csent s),
+       (if w_close_sent s then [] else [EvSend (make_close code reason)])
+       ++ [EvError; EvClosed code reason; EvCloseSession])
+    else (s, [])
+  | Client =>
+    (mkW false [] 0 (w_close_sent s) false true,
+     (if w_csent s then [] else [EvSend (make_close code reason)]) ++ [EvError; EvClosed code reason])
+  end.
 
 Definition handle_data_frame (r : role) (maxsz : N) (s : wstate) (f : frame)
   : wstate * list wevent :=
@@ -191,25 +235,27 @@ Definition handle_data_frame (r : role) (maxsz : N) (s : wstate) (f : frame)
   let fragop := if is_start then f_op f else w_fragop s in
   let frag := if is_start then f_payload f
               else if is_contn then w_frag s ++ f_payload f else w_frag s in
-  let s1 := mkW (w_alive s) frag fragop (w_close_sent s) (w_connected s) in
+  let s1 := mkW (w_alive s) frag fragop (w_close_sent s) (w_connected s) (w_csent s) in
+  (* a refused message is dropped (repair of C18-F1b3 / F1c2) *)
+  let s0 := mkW (w_alive s) [] 0 (w_close_sent s) (w_connected s) (w_csent s) in
   match r with
   | Server =>
     if maxsz <? lenN frag then
-      let '(s2, ev) := srv_send_close s1 1009 reason_too_big in (s2, ev ++ [EvError])
+      let '(s2, ev) := srv_send_close s0 1009 reason_too_big in (s2, ev ++ [EvError])
     else if f_fin f then
-      let s2 := mkW (w_alive s) [] 0 (w_close_sent s) (w_connected s) in
       if fragop =? 1 then
-        if utf8_valid frag then (s2, [EvText frag])
-        else srv_send_close s2 1007 reason_utf8
-      else if fragop =? 2 then (s2, [EvBinary frag])
-      else (s2, [])
+        if utf8_valid frag then (s0, [EvText frag])
+        else srv_send_close s0 1007 reason_utf8
+      else if fragop =? 2 then (s0, [EvBinary frag])
+      else (s0, [])
     else (s1, [])
   | Client =>
-    if f_fin f then
-      let s2 := mkW (w_alive s) [] 0 (w_close_sent s) (w_connected s) in
-      if fragop =? 1 then (s2, [EvText frag])
-      else if fragop =? 2 then (s2, [EvBinary frag])
-      else (s2, [])
+    if maxsz <? lenN frag then
+      let '(s2, ev) := cl_send_close s0 1009 reason_too_big in (s2, ev ++ [EvError])
+    else if f_fin f then
+      if fragop =? 1 then (s0, [EvText frag])
+      else if fragop =? 2 then (s0, [EvBinary frag])
+      else (s0, [])
     else (s1, [])
   end.
 
@@ -226,12 +272,12 @@ Definition handle_frame (r : role) (maxsz : N) (s : wstate) (f : frame)
     | Server =>
       let echo := w_alive s && negb (w_close_sent s) in
       let s1 := mkW false (w_frag s) (w_fragop s)
-                    (w_close_sent s || w_alive s) (w_connected s) in
+                    (w_close_sent s || w_alive s) (w_connected s) (w_csent s) in
       (s1, (if echo then [EvSend (make_close code reason)] else [])
            ++ [EvClosed code reason; EvCloseSession])
     | Client =>
       let echo := negb (w_close_sent s) in
-      let s1 := mkW (w_alive s) (w_frag s) (w_fragop s) true false in
+      let s1 := mkW (w_alive s) (w_frag s) (w_fragop s) true false (w_csent s || echo) in
       (s1, (if echo then [EvSend (make_close code reason)] else [])
            ++ [EvClosed code reason])
     end
@@ -251,13 +297,18 @@ Fixpoint frame_loop (fuel : nat) (r : role) (maxsz : N) (s : wstate) (data : lis
     match data with
     | [] => (s, [], [])
     | _ =>
-      match parse data with
-      | Nullopt => (s, [], data)
-      | Parsed f c =>
-        let rest := skipn (N.to_nat c) data in
-        let '(s1, ev1) := handle_frame r maxsz s f in
-        let '(s2, ev2, rem) := frame_loop fuel' r maxsz s1 rest in
-        (s2, ev1 ++ ev2, rem)
+      match check_header data maxsz with
+      | HProto => let '(s1, ev) := fail_conn r s 1002 reason_proto in (s1, ev, [])
+      | HTooBig => let '(s1, ev) := fail_conn r s 1009 reason_too_big in (s1, ev, [])
+      | _ =>
+        match parse data with
+        | Nullopt => (s, [], data)
+        | Parsed f c =>
+          let rest := skipn (N.to_nat c) data in
+          let '(s1, ev1) := handle_frame r maxsz s f in
+          let '(s2, ev2, rem) := frame_loop fuel' r maxsz s1 rest in
+          (s2, ev1 ++ ev2, rem)
+        end
       end
     end
   end.
@@ -270,14 +321,13 @@ Definition conn_init : conn := ([], w_init).
 Definition feed (r : role) (maxsz : N) (c : conn) (chunk : list N)
   : conn * list wevent :=
   let '(buf, s) := c in
-  match r, w_alive s with
-  | Server, false => (c, [])
-  | _, _ =>
+  (* a forgotten server session / a failed client connection reads nothing more *)
+  if negb (w_alive s) then (c, [])
+  else
     let local := buf ++ chunk in
     let '(s1, ev, rem) := frame_loop (length local) r maxsz s local in
     (* remainder is put back only while the session still exists *)
-    ((if match r with Server => w_alive s1 | Client => true end then rem else [], s1), ev)
-  end.
+    ((if w_alive s1 then rem else [], s1), ev).
 
 Fixpoint feed_all (r : role) (maxsz : N) (c : conn) (chunks : list (list N))
   : conn * list wevent :=
@@ -308,10 +358,10 @@ Definition app_send (r : role) (s : wstate) (o : appop) : wstate * list wevent :
     end
   | Client =>
     match o with
-    | AppText p => if w_connected s then (s, [EvSend (mkFrame true 1 false key0 p)]) else (s, [])
-    | AppBinary p => if w_connected s then (s, [EvSend (mkFrame true 2 false key0 p)]) else (s, [])
-    | AppPing p => if w_connected s then (s, [EvSend (mkFrame true 9 false key0 p)]) else (s, [])
-    | AppClose c rs => (s, [EvSend (make_close c rs)])
+    | AppText p => if w_connected s && negb (w_csent s) then (s, [EvSend (mkFrame true 1 false key0 p)]) else (s, [])
+    | AppBinary p => if w_connected s && negb (w_csent s) then (s, [EvSend (mkFrame true 2 false key0 p)]) else (s, [])
+    | AppPing p => if w_connected s && negb (w_csent s) then (s, [EvSend (mkFrame true 9 false key0 p)]) else (s, [])
+    | AppClose c rs => cl_send_close s c rs
     end
   end.
 
